@@ -59,10 +59,13 @@ impl GraphStore for GraphEngine {
     type Snapshot = StorageSnapshot;
 
     fn snapshot(&self) -> Self::Snapshot {
+        #[cfg(nervusdb_verif)]
+        let _vhp = crate::verif::acquire("publish_lock.r");
+        let _publish = self.publish_read();
         let i2e = Arc::new(self.scan_i2e_records());
         #[cfg(nervusdb_verif)]
         crate::verif::point("snap.i2e");
-        let inner = self.begin_read();
+        let inner = self.begin_read_published();
         let tombstoned_nodes: HashSet<InternalNodeId> = collect_tombstoned_nodes(inner.runs());
         StorageSnapshot {
             inner,
